@@ -533,7 +533,7 @@ def correspond(ctx):
                     meta.append(('W', name, tag, spec, seed, m))
                     ctx.count(('W', spec, tuple(wire.mol_to_ints(m)), tuple(draws)), nontrivial)
                     ctx.dist('style:' + (spec or 'canonical'))
-                    if spec in ('', 'a', 'r') and line.startswith('ok'):
+                    if (spec in ('', 'a', 'r') or (st and '!s' not in spec)) and line.startswith('ok'):
                         reqs.append(request('C', m, spec, order, draws))
                         expect.append(None)
                         meta.append(('C', name, tag, spec, seed, m))
@@ -582,6 +582,8 @@ def correspond(ctx):
                     ctx.dist('maxopen:' + got.split('maxopen=')[1].split()[0])
             elif op == 'R':
                 ctx.count(('R', spec, tuple(wire.mol_to_ints(m)), seed), m.bonds_count > 0)
+                if has_stereo(m) and '!s' not in spec:
+                    ctx.dist('model-reread-with-stereo-marks')
                 if not got.startswith('ok iso'):
                     ctx.cov['disagreements_checked'] += 1
                     ctx.broke('relational', 'model-reread', f'{name}/{tag} [{spec!r}] {got}')
